@@ -60,12 +60,14 @@ CLAIMS['C13'] = dict(cat='model_checking', ref='DESIGN.md §4 C13',
 CLAIMS['C08'] = dict(cat='fault_enumeration', ref='DESIGN.md §4 C08',
     text='For every generated structural case (tree x key x insert/remove) the allocation-failure position is a symbolic variable (0..3) and CBMC decides each resulting path: exception type, '
          'entries/values/statistics/live allocations unchanged after the failure, normal result of the retry; over-long values raise length_error with no effect.',
-    note='keys are generated concrete structural cases (a fully symbolic key together with a symbolic fault position exhausts memory, measured); one fault per operation; db instantiation; '
-         'QSBR side: deferred-deallocation request and thread start (quick), request with a queued request and resume (thorough), path-wise. Counterexamples replay on the g++ build with interposed allocators.',
+    note='keys are generated concrete structural cases (a fully symbolic key together with a symbolic fault position exhausts memory, measured); one fault per operation; db instantiation with the fault position symbolic; '
+         'olc_db (one registered thread; every case x every position, position as generated constant because the OLC index does not fold with a symbolic one) and five mutex_db cases; '
+         'QSBR side: request / request that is the first to notice an epoch change completed by the others / resume / thread start, with the requester epoch view and both pending lists compared before and after '
+         '(positions enumerated, quick; symbolic path-wise in the thorough tier). Counterexamples of the db queries replay on the g++ build with interposed allocators.',
     tech='bounded symbolic execution of the real code (clang IR -> C -> CBMC), path-wise (--paths lifo) with the fault index symbolic')
 CLAIMS['C10'] = dict(cat='model_checking', ref='DESIGN.md §4 C10',
     text='SAT decides, for all 2^64 keys of one insert/remove on catalogue trees, that leaf count, inner nodes per size class and memory use equal a reference computed from the key set alone, '
-         'that growth/shrink counters are monotone and move exactly with structural changes, that live allocations match the reported nodes; clear() zeroes everything.',
+         'that growth/shrink counters are monotone and move exactly with structural changes, that live allocations match the reported nodes; clear() zeroes everything; for the OLC index after a concurrent phase (every preemption point of 9 scenarios) all counters and inner node counts equal those of the same calls issued one at a time on the unsynchronised index in an order that fits the results.',
     note='history independence only in the form insert(k);remove(k) and via the reference shape (which depends on the key set only); I48/I256 classes appear only in the node-level lemmas of C01; db instantiation.')
 
 CLAIMS['C17'] = dict(cat='model_checking', ref='DESIGN.md §4 C17',
@@ -78,7 +80,7 @@ SEQ_NOTE = ('the solver does not quantify over schedules here: a symbolic preemp
             'acts as executor/checker of the real code; scenario list (concrete trees/keys or scripts) x every preemption point of one thread x one complete operation/script of the other thread(s); sequential consistency; '
             'counterexamples are (scenario, preemption index) pairs, re-runnable with run_check.py --only; no native replay of schedules. ')
 CLAIMS['C03'] = dict(cat='exploration', ref='DESIGN.md §3.4, §4', tech=SEQ_TECH,
-    text='Exhaustive within its bound: for each of ~20 scenarios (one per structural change of the OLC tree x reader / second writer / same-key race) and EVERY atomic access of thread A as the preemption point at which '
+    text='Exhaustive within its bound: for each of ~30 scenarios (one per structural change of the OLC tree x reader / second writer / same-key race) and EVERY atomic access of thread A as the preemption point at which '
          'thread B completes its operation, results and final content equal those of one sequential order of the two calls. A genuine lost-read defect of the pinned tree is found this way and listed as a known finding.',
     note=SEQ_NOTE + 'Not covered: two or more preemptions, three or more threads, weak memory, random exploration beyond the bound.')
 CLAIMS['C04'] = dict(cat='exploration', ref='DESIGN.md §3.4, §4', tech=SEQ_TECH,
@@ -87,10 +89,11 @@ CLAIMS['C04'] = dict(cat='exploration', ref='DESIGN.md §3.4, §4', tech=SEQ_TEC
          'free-site hooks: no operation hands a node straight to the allocator, every unlinked node is freed exactly once after both threads quiesced.',
     note=SEQ_NOTE + 'Scans under interleavings and "eventually freed exactly once" beyond the two-operation scenarios are not covered (QSBR reclamation itself: C05/C06).')
 CLAIMS['C14'] = dict(cat='exploration', ref='DESIGN.md §3.4, §4', tech=SEQ_TECH,
-    text='After every explored schedule a sweep (get of every key, insert+remove next to every key) must complete within the unwinding bound of the restart loops, i.e. no node or root lock is left held by either operation.',
-    note=SEQ_NOTE + 'Deadlock-freedom proper (wait cycles of three or more threads) and allocation-failure points on the OLC index are NOT decided by this check.')
+    text='After every explored schedule a sweep (get of every key, insert+remove next to every key) must complete within the unwinding bound of the restart loops, i.e. no node or root lock is left held by either operation. '
+         'Allocation failures: every structural case of C08 on the olc_db (one registered thread) with each of its allocations failing in turn (position enumerated), followed by the same sweep.',
+    note=SEQ_NOTE + 'Deadlock-freedom proper (wait cycles of three or more threads) is NOT decided by this check; allocation failures are not combined with preemptions.')
 CLAIMS['C05'] = dict(cat='exploration', ref='DESIGN.md §3.4, §4', tech=SEQ_TECH + '; QSBR state word kernels: SAT over all 64-bit words',
-    text='(a) SAT: every state-word transition function for ALL 64-bit words satisfying the invariant (release and assertion-enabled IR). (b) Exhaustive within its bound: 14 scripted 3-4 thread programs in which one call '
+    text='(a) SAT: every state-word transition function for ALL 64-bit words satisfying the invariant (release and assertion-enabled IR). (b) Exhaustive within its bound: 16 scripted 3-4 thread programs in which one call '
          'is preempted at EVERY atomic access by a script of complete calls of the other threads; every free performed by QSBR is intercepted and must not happen while a thread registered at request time has yet to quiesce, pause or exit.',
     note=SEQ_NOTE + 'Statistics-free build; exit modelled by pause; programs are a scenario list, not all programs of the quantifier.')
 CLAIMS['C06'] = dict(cat='exploration', ref='DESIGN.md §3.4, §4', tech=SEQ_TECH + '; QSBR state word kernels: SAT over all 64-bit words',
